@@ -158,7 +158,7 @@ func runC10(ctx *h.Ctx) int {
 				return
 			}
 			k.Count("accepted", 1)
-			if !vmCheck(k, prog, res.Out, vmCheckOpts{NStates: ctx.N(6, 16), Full: true, Render: lm.renderCmd, Cands: g.Cands()}, fmt.Sprintf("optimize=%v", opt)) {
+			if !vmCheck(k, prog, res.Out, vmCheckOpts{NStates: ctx.N(6, 16), Full: true, Render: lm.renderCmd, Cands: g.Cands(), Orig: prog, Optimize: opt}, fmt.Sprintf("optimize=%v", opt)) {
 				return
 			}
 		}
